@@ -82,6 +82,7 @@ class ExprMixin:
     def ev_Set(self, node, st, want):
         items = [self.eval(e, st) for e in node.elts]
         ept = want.args[0] if (want is not None and want.kind == "set") else self.ops.pt_of(items[0])
+        items = [self.narrow(i, ept, st) for i in items]
         return self.set_of(items, Set(ept))
 
     def set_of(self, items, spt):
@@ -119,9 +120,9 @@ class ExprMixin:
             return self.eval(node.orelse, st, want)
         n = len(st.pc)
         st.pc.append(c)
-        a = self.eval(node.body, st, want)
+        a = self.narrow(self.eval(node.body, st, want), want, st)
         st.pc[n] = smt.Not(c)
-        b = self.eval(node.orelse, st, want)
+        b = self.narrow(self.eval(node.orelse, st, want), want, st)
         del st.pc[n:]
         if isinstance(a, list) or isinstance(b, list):
             w = want or (a.pt if isinstance(a, SV) else b.pt if isinstance(b, SV) else None)
@@ -131,6 +132,13 @@ class ExprMixin:
         if isinstance(a, ObjRef) or isinstance(b, ObjRef):
             raise Unsupported("if-expression joining heap objects")
         return self.ops.ite_val(c, a, b)
+
+    def narrow(self, v, want, st):
+        """Opt[T] -> T where T is wanted: safe only if the value is not None on this path (obligation)."""
+        if want is not None and isinstance(v, SV) and v.pt.kind == "opt" and v.pt.args[0] == want:
+            self.safety(st, self.ops.opt_is_some(v), "value is not None here")
+            return self.ops.opt_the(v)
+        return v
 
     def ev_BoolOp(self, node, st, want):
         is_and = isinstance(node.op, ast.And)
